@@ -227,6 +227,7 @@ func runMain(args []string) int {
 	}
 	var viols []located
 	racesSeen := map[string]raceReport{}
+	var harnessRaces []string
 	crashed, hung := 0, 0
 	for _, o := range outcomes {
 		if o.res != nil {
@@ -240,7 +241,11 @@ func runMain(args []string) int {
 			if _, ok := racesSeen[r.Sig]; !ok {
 				racesSeen[r.Sig] = r
 				if spec.RacesAreViolations {
-					viols = append(viols, located{Violation{Sig: "race:" + r.Sig, Detail: r.Text}, o.batch, o.dir})
+					if strings.Contains(r.Text, "outline-ss-server/") {
+						viols = append(viols, located{Violation{Sig: "race:" + r.Sig, Detail: r.Text}, o.batch, o.dir})
+					} else {
+						harnessRaces = append(harnessRaces, r.Sig)
+					}
 				} else if spec.RaceUpgrade != nil {
 					if sig, bad := spec.RaceUpgrade(r.Text); bad {
 						viols = append(viols, located{Violation{Sig: sig, Detail: r.Text}, o.batch, o.dir})
@@ -361,6 +366,10 @@ func runMain(args []string) int {
 	}
 	if nViol > 0 {
 		return 1
+	}
+	if len(harnessRaces) > 0 {
+		fmt.Printf("BROKEN-CHECK property=%s: race inside the harness itself (no repository frame): %v\n", id, harnessRaces)
+		return 2
 	}
 	if len(missing) > 0 {
 		fmt.Printf("BROKEN-CHECK property=%s: nothing observed for %v\n", id, missing)
